@@ -19,6 +19,7 @@ pub enum PreprocessError {
     ConcatMissingRightToken(SourceLocation),
     ConcatFailed(SourceLocation),
     FailedToFindFile(SourceLocation, String, IncludeError),
+    IncludeNestedTooDeeply(SourceLocation),
     FailedToParseIfCondition(SourceLocation),
     InvalidIfdef(SourceLocation),
     InvalidIfndef(SourceLocation),
@@ -93,6 +94,11 @@ impl CompileError for PreprocessError {
                 *loc,
                 Severity::Error,
             ),
+            PreprocessError::IncludeNestedTooDeeply(loc) => w.write_message(
+                &|f| write!(f, "#include nested too deeply"),
+                *loc,
+                Severity::Error,
+            ),
             PreprocessError::FailedToParseIfCondition(loc) => w.write_message(
                 &|f| write!(f, "#if condition parser failed"),
                 *loc,
@@ -134,10 +140,14 @@ impl CompileError for PreprocessError {
     }
 }
 
+/// The number of files that may be open through nested #include directives at a time
+const MAX_INCLUDE_DEPTH: u32 = 64;
+
 /// Manage files that are returned from the external include handler
 struct FileLoader<'a> {
     file_name_remap: HashMap<String, FileId>,
     pragma_once_files: HashSet<FileId>,
+    include_depth: u32,
     source_manager: &'a mut SourceManager,
     include_handler: &'a mut dyn IncludeHandler,
 }
@@ -156,6 +166,7 @@ impl<'a> FileLoader<'a> {
         FileLoader {
             file_name_remap: HashMap::new(),
             pragma_once_files: HashSet::new(),
+            include_depth: 0,
             source_manager,
             include_handler,
         }
@@ -1095,8 +1106,20 @@ fn preprocess_command(
             // Include the file
             match file_loader.load(&file_name, Some(file_id)) {
                 Ok(file) => {
-                    preprocess_included_file(buffer, file_loader, file, macros, condition_chain)?;
-                    Ok(())
+                    // A file that includes itself would otherwise recurse until the stack runs out
+                    if file_loader.include_depth >= MAX_INCLUDE_DEPTH {
+                        return Err(PreprocessError::IncludeNestedTooDeeply(command_location));
+                    }
+                    file_loader.include_depth += 1;
+                    let result = preprocess_included_file(
+                        buffer,
+                        file_loader,
+                        file,
+                        macros,
+                        condition_chain,
+                    );
+                    file_loader.include_depth -= 1;
+                    result
                 }
                 Err(err) => Err(PreprocessError::FailedToFindFile(
                     command_location,
